@@ -785,7 +785,7 @@ impl Sim for StreamSim {
                 "generated" => {
                     let format = Format::ALL[(idx % 7) as usize];
                     let max_records = if idx % 97 == 0 { 400 } else { 40 };
-                    let model = gen::gen_file(r, format, max_records);
+                    let model = if idx % 5003 == 5002 { gen::gen_huge_file(r, format) } else { gen::gen_file(r, format, max_records) };
                     let text = model.render();
                     let transport = gen::gen_transport(r, &text, idx / 7);
                     Sc {
